@@ -74,7 +74,8 @@ def race_pairs(tmp, tier, seed, goenv):
 
 
 PROP = {
-    "coq": ["C08", "C08w"],
+    "coq": ["C08", "C08w", "C08g"],
+    "confirm_scenarios": ['concgarble'],
     "pre": [regen_locks],
     "extra": [race_pairs],
     "exhaustive": False,
@@ -92,7 +93,18 @@ PROP = {
             "until its reply has been taken off the socket or the i/o deadline armed for it has passed (one-sided: no verdict "
             "depends on the speed of the machine); no request may be written before that, never two goroutines in Read, "
             "every call returns its own reply or a time-out; the recorded wire events must pass the extracted check "
-            "cw_atomic (Model/ConcWire.v), which accepts the wire of every interleaving of the lock skeleton (theorems C08w).",
+            "cw_atomic (Model/ConcWire.v), which accepts the wire of every interleaving of the lock skeleton (theorems C08w). "
+            "Scenario concgarble: 2..6 goroutines (reads, writes, SetUnitId, SetEncoding) share one client over an RTU-framed "
+            "link (scripted rtuovertcp connection, loopback rtuovertcp and rtuoverudp devices; 9600..115200 bps, timeout 3 s) "
+            "whose device garbles some replies - one wrong bit in the body or the CRC, a function code no reply carries, each "
+            "also with line noise behind the frame, a frame cut short, silence, exception replies - and answers the exchange "
+            "after a garbled one one maximum frame time + 150..350 ms late (the next caller was queued for the client): each "
+            "way of garbling in turn answered to the first call of goroutines that start together, and seeded random sets; a "
+            "request is outstanding until its whole answer has been taken off the link or the deadline armed for it has "
+            "passed, no request may be written before that, never two goroutines in Read, one whole frame per Write call; "
+            "every caller must be handed what the answer to ITS request decides and every request must be the model's frame "
+            "(cg_expected of the extracted Model/ConcGarble.v: one client_call per call on a quiet line; theorems C08g: that "
+            "is what the exchanges return in every order), the wire events must pass cw_atomic.",
     "assumptions": [
         "the Go memory model (an Unlock happens before the next Lock returns) and sync.Mutex are trusted",
         "the extractor harness/cmd/locksum (go/parser + go/ast) is trusted to report every access to the shared fields "
